@@ -100,6 +100,9 @@ func (s *Subscription) delete(ctx context.Context) error {
 	switch {
 	case err != nil:
 		return err
+	case len(res.Results) == 0:
+		// the server answered with no result for the one subscription id we sent
+		return ua.StatusBadUnknownResponse
 	case res.Results[0] == ua.StatusOK:
 		s.itemsMu.Lock()
 		s.items = make(map[uint32]*monitoredItem)
@@ -164,9 +167,13 @@ func (s *Subscription) Monitor(ctx context.Context, ts ua.TimestampsToReturn, it
 		return nil, err
 	}
 
-	// store monitored items
+	// a well-behaved server returns one result per item to create.
+	// Store only the items for which there is a result.
 	s.itemsMu.Lock()
 	for i, item := range items {
+		if i >= len(res.Results) {
+			break
+		}
 		result := res.Results[i]
 		s.items[result.MonitoredItemID] = &monitoredItem{
 			req: item,
@@ -243,6 +250,10 @@ func (s *Subscription) ModifyMonitoredItems(ctx context.Context, ts ua.Timestamp
 	// update monitored items
 	s.itemsMu.Lock()
 	for i, res := range res.Results {
+		if i >= len(req.ItemsToModify) {
+			// more results than items: nothing to relate them to
+			break
+		}
 		if res.StatusCode != ua.StatusOK {
 			continue
 		}
@@ -485,6 +496,10 @@ func (s *Subscription) recreate_monitoredItems(ctx context.Context) error {
 			if status := result.StatusCode; status != ua.StatusOK {
 				return status
 			}
+		}
+
+		if len(res.Results) != len(items) {
+			return ua.StatusBadUnknownResponse
 		}
 
 		s.itemsMu.Lock()
